@@ -96,6 +96,9 @@ pub mod status;
 #[cfg(feature = "python")]
 pub mod python;
 
+#[cfg(ivp_verif)]
+pub mod verif_hooks;
+
 // -- Numerical methods --
 pub mod methods;
 
